@@ -17,8 +17,8 @@ def jobs(ctx, props):
     E = aegen.chain_engines()
     out = []
     quick = ctx.quick()
-    names = ['single', 'chain2', 'task-analysis', 'regress-leaf'] if quick else \
-        ['single', 'chain2', 'pair', 'task-analysis', 'regress-leaf', 'fork']
+    names = ['single', 'chain2', 'task-analysis', 'regress-leaf', 'placement'] if quick else \
+        ['single', 'chain2', 'pair', 'task-analysis', 'regress-leaf', 'fork', 'placement']
     for name in names:
         out.append((name + '/explicit', E[name], ['A'], props,
                     {'reqs': 2, 'mode': 'explicit',
